@@ -87,6 +87,8 @@ Definition site_media_link : N := 5.     (* fileMapper.LinkAttachments: same *)
 Definition site_pb_setquery : N := 6.    (* pbCliDeserialize: *pbSetQueryDeserialize(sq) with nil result *)
 Definition site_p2p_original : N := 7.   (* Topic.original: panic("Invalid P2P topic") *)
 Definition site_defacs : N := 8.         (* getDefaultAccess: panic("Unknown topic category") *)
+(* site 9 = boundedWaitGroup.Done() before Add() (sessionstore.go:52): modelled in Sys/Inflight.v (an interleaving model of
+   every Add / Done site with its own flag [init_test] for Topic.unregisterSession), theorems c13_inflight_* in Props/PropC13.v *)
 
 Definition get_topic_cat (name : str) : catres :=
   match name with
